@@ -106,6 +106,14 @@ def _pm_smear(case, v):
                            "as/S_ref", "as/fuel_vol_delta") and e / tol * 1e-7 <= 50.0 * cross[0] + 1e-6
 
 
+# ---------------------------------------------------------------------------------------------- C15
+@predicate("wingbox_spar_bending_sign")
+def _wb_spar_sign(case, v):
+    # VonMisesWingbox: front/rear spar bending stresses carry the sign of a local z axis pointing aft while the element frame has z
+    # pointing forward; matched only when both corner columns equal the closed form with exactly that sign reversed
+    return v["family"] == "closed/wingbox_biaxial_corners" and "wingbox" in _tags(v) and v["detail"].get("spar_sign_reversed") is True
+
+
 # ---------------------------------------------------------------------------------------------- C07
 @predicate("wingbox_vm_right_half")
 def _wb_vm(case, v):
